@@ -23,14 +23,14 @@ META = {
     "C02": {
         "sections": ["Arith.Max", "Arith.Min", "Arith.rangeCompare"],
         "rule": "shape family: every between-site/point/(partial) range/ambiguous span with coordinates in [0,8], their complements, joins and orders (and complements thereof) of 2 parts (thorough: 3 parts) from a 15-part pool incl. abutting, overlapping, single-base, zero-length and complemented parts, nesting 2; x every insertion index 0..8 x guest lengths {0,1,3}; Shift and Expand at location level, Insert and Embed at sequence level (host table = source + shape + another feature, guest with 0/1 feature), plus random tables of 0..5 features with nesting <= 2. Non-trivial = guest length > 0 (location level) / every sequence-level case; distinct = distinct case lines.",
-        "assumptions": ["Go int as unbounded Z", "theorems cover locations without join(...) in the input (the joins produced by splitting are covered); joins in the input are covered by correspondence + oracle",
+        "assumptions": ["Go int as unbounded Z", "total theorems for locations without join(...) in the input (the joins produced by splitting are covered); _joins theorems cover every location up to adjacent duplicates under k1_after (no image point on an image range end): partial correctness; K1 shapes by correspondence + oracle",
                         "the partial-marker clause is checked on locations whose markers sit on outer ends only (INSDC well-formed)"],
     },
     "C03": {
         "sections": ["Arith.Max", "Arith.rangeWithin", "Arith.rangeOverlap"],
         "rule": "shape family as C02 on a length-9 sequence x every (i,n) with n<=4 or n reaching the end; Delete and Erase on tables (source + shape) for all i and n in {0,1,3,L-i}; Slice over windows s,e in [-9,9] incl. wrap-around and negative indices. Non-trivial = n>0 / every slice; distinct case lines.",
-        "assumptions": ["Go int as unbounded Z", "theorem covers inputs without join(...); ambiguous spans are compared at span level",
-                        "GenBank REFERENCE clipping (metadata) is exercised under C01's check, not here"],
+        "assumptions": ["Go int as unbounded Z", "total theorem for inputs without join(...); C03_expand_neg_den_joins covers every location up to adjacent duplicates under k1_after; slice = two deletions is decided by correspondence + oracle; ambiguous spans are now compared by residues",
+                        "GenBank REFERENCE clipping (metadata): refs_slice model + four theorems + oracle over windows at every range edge"],
     },
     "C04": {
         "sections": ["Arith.Max"],
@@ -40,7 +40,7 @@ META = {
     "C05": {
         "sections": ["Tables.complement"],
         "rule": "shape family with triples plus joins/orders of 4 and 5 parts, L=8: Reverse, Complement, Region, den at location level; Reverse, Complement, Locate and reverse-complement extraction at sequence level. Distinct case lines, all non-trivial.",
-        "assumptions": ["theorem covers inputs without join(...) (order(...) of every arity is covered)",
+        "assumptions": ["total theorem for inputs without join(...) (order(...) of every arity); for every location incl. joins a partial-correctness theorem up to adjacent duplicates under k1_after (complement of K1)",
                         "extraction equality is claimed for locations that name no base twice (Join drops duplicates, C06)"],
     },
     "C10": {
